@@ -237,8 +237,10 @@ class StringRecognizer(Recognizer):
 
     def __call__(self, in_str, pos):
         if self.ignore_case:
-            if in_str[pos : pos + len(self.value)].lower() == self.value_cmp:
-                return self.value
+            # The token is the text found in the input, in its own case.
+            match = in_str[pos : pos + len(self.value)]
+            if match.lower() == self.value_cmp:
+                return match
         else:
             if in_str[pos : pos + len(self.value)] == self.value_cmp:
                 return self.value
